@@ -11,6 +11,7 @@ import (
 	"encoding/binary"
 	"encoding/json"
 	"fmt"
+	"log"
 	"math/rand/v2"
 	"os"
 	"os/exec"
@@ -32,7 +33,8 @@ const (
 	magic1   = "\x01\x23\x45\x67\x89\xab\xcd\xef"
 	magic2   = "\xfe\xdc\xba\x98\x76\x54\x32\x10"
 	shutdown = "\x2b\xc1\x85\x63\x8d\x71\x65\x6d"
-	stateLen = 38
+	stateLen = 36 // magic1 8, time 8, two 5-byte offsets, checksum 2, magic2 8
+	magic2At = 28
 	tailLen  = 8
 	page     = 4096
 )
@@ -91,7 +93,7 @@ func scanStates(data []byte) []int {
 			break
 		}
 		off := i + j
-		if off+stateLen <= len(data) && string(data[off+30:off+38]) == magic2 {
+		if off+stateLen <= len(data) && string(data[off+magic2At:off+stateLen]) == magic2 {
 			offs = append(offs, off)
 		}
 		i = off + 1
@@ -178,7 +180,7 @@ func buildMaster(r *rand.Rand, path string, targetSize int, sessions int) (*mast
 		overhead := 0
 		for try := 0; try < 40; try++ {
 			before := size()
-			want := page - 19 // state offset within its page
+			want := page - stateLen/2 // state offset within its page
 			fill := ((want-(before+overhead))%page + page) % page
 			if fill < 8 {
 				fill += page
@@ -271,7 +273,7 @@ func tailBytes(c crashCase, seed uint64) []byte {
 		return make([]byte, 65536)
 	}
 	r := rand.New(rand.NewPCG(seed, uint64(c.L)*2654435761+7))
-	lens := []int{1, 7, 8, 37, 38, 46, 100, page - c.L%page, 5000}
+	lens := []int{1, 7, 8, 35, 36, 44, 100, page - c.L%page, 5000}
 	n := lens[r.IntN(len(lens))]
 	b := make([]byte, n)
 	for i := range b {
@@ -319,15 +321,23 @@ func runSub(jobFile string) {
 	// keep the output of Repair ("+ 0 good") out of the logs
 	devnull, _ := os.OpenFile(os.DevNull, os.O_WRONLY, 0)
 	os.Stdout = devnull
+	log.SetOutput(&logBuf) // FATAL / ERROR messages of the code under test
 	for i := j.From; i < len(j.Cases); i++ {
 		fmt.Fprintf(out, "S %d\n", i)
-		res := runCase(&m, data, j.Cases[i], filepath.Join(j.Dir, "crash.db"))
+		// a fresh file per case: a refused open that ended in core.Fatal (= process exit in
+		// production) leaves its descriptor and file lock behind in this process
+		file := filepath.Join(j.Dir, fmt.Sprintf("c%d.db", i))
+		res := runCase(&m, data, j.Cases[i], file)
+		os.Remove(file)
+		os.Remove(file + ".bak")
 		res.Idx = i
 		b, _ := json.Marshal(res)
 		fmt.Fprintf(out, "R %s\n", b)
 	}
 	fmt.Fprintf(out, "DONE\n")
 }
+
+var logBuf bytes.Buffer
 
 // call runs fn and classifies how it ended: normally, core.Fatal (ExitPanic), Suneido
 // error panic or Go runtime error.
@@ -347,12 +357,14 @@ func call(fn func()) (kind string, val any, stack string) {
 func runCase(m *master, data []byte, c crashCase, file string) (res caseResult) {
 	res.L, res.Mode = c.L, c.Mode
 	res.InsideWhat = m.inside(c.L)
+	logBuf.Reset()
 	add := func(class string, detail map[string]any) {
 		if detail == nil {
 			detail = map[string]any{}
 		}
 		detail["L"], detail["mode"], detail["cut_inside"] = c.L, c.Mode, res.InsideWhat
 		detail["db_size"] = m.Size
+		detail["log"] = vk.Trunc(logBuf.String(), 1500)
 		res.Findings = append(res.Findings, finding{class, detail})
 	}
 	content := append(append([]byte{}, data[:c.L]...), tailBytes(c, uint64(m.Size))...)
@@ -360,9 +372,7 @@ func runCase(m *master, data []byte, c crashCase, file string) (res caseResult) 
 		add("C05/harness/write-failed", map[string]any{"error": err.Error()})
 		return
 	}
-	if _, err := os.Stat(file + ".bak"); err != nil {
-		os.WriteFile(file+".bak", nil, 0o644) // RenameBak sleeps in retries when it is missing
-	}
+	os.WriteFile(file+".bak", nil, 0o644) // RenameBak sleeps in retries when it is missing
 	// effective content: trailing zero bytes are stripped on open by design
 	eff := len(content)
 	for eff > 0 && content[eff-1] == 0 {
@@ -370,12 +380,20 @@ func runCase(m *master, data []byte, c crashCase, file string) (res caseResult) 
 	}
 	exp := m.expectedState(c.L)
 	res.Expected = exp
-	clean := exp >= 0 && m.States[exp].SessionEnd && eff == int(m.States[exp].Off)+stateLen+tailLen
+	clean := exp >= 0 && m.States[exp].SessionEnd && eff == int(m.States[exp].Off)+stateLen+tailLen &&
+		bytes.Equal(content[:eff], data[:eff])
 
 	// 1. open
 	var db *db19.Database
 	var oerr error
-	kind, val, stack := call(func() { db, oerr = db19.OpenDatabase(file) })
+	if os.Getenv("VERIF_C05_SKIPOPEN") != "" {
+		oerr = fmt.Errorf("skipped")
+	}
+	kind, val, stack := call(func() {
+		if oerr == nil {
+			db, oerr = db19.OpenDatabase(file)
+		}
+	})
 	opened := kind == "" && oerr == nil
 	switch {
 	case kind == "go-runtime-error":
@@ -529,7 +547,9 @@ func TestVerifC05(t *testing.T) {
 	dbhist.Setup()
 	dir := filepath.Join(vk.OutDir(), fmt.Sprintf("c05-%d", vk.Shard()))
 	os.MkdirAll(dir, 0o755)
-	defer os.RemoveAll(dir)
+	if os.Getenv("VERIF_C05_DEBUG") == "" {
+		defer os.RemoveAll(dir)
+	}
 
 	// 1. this child's own database: boundary and sampled offsets
 	r := vk.Rand(5)
@@ -614,7 +634,7 @@ func observeMaster(rep *vk.Report, m *master) {
 	}
 }
 
-// boundaryCases: every state start/end and session end +- {0,1,8,30,37,38}, every page
+// boundaryCases: every state start/end and session end +- {0,1,8,28,35,36}, every page
 // boundary +- 1 (page boundaries inside a state record first), PRNG offsets; x tail modes.
 func boundaryCases(m *master, r *rand.Rand, budget int) []crashCase {
 	seen := map[int]bool{}
@@ -647,7 +667,7 @@ func boundaryCases(m *master, r *rand.Rand, budget int) []crashCase {
 	var bounds []int
 	for _, s := range m.States {
 		o := int(s.Off)
-		for _, d := range []int{0, 1, 8, 30, 37, 38} {
+		for _, d := range []int{0, 1, 8, 28, 35, 36} {
 			bounds = append(bounds, o+d, o-d, o+stateLen+d)
 		}
 	}
@@ -809,6 +829,10 @@ func runBatch(m *master, metaFile string, part []crashCase, from int, dir string
 }
 
 func record(rep *vk.Report, m *master, res caseResult) {
+	if os.Getenv("VERIF_C05_DEBUG") != "" && res.InsideWhat == "page-aligned-in-state" {
+		b, _ := json.Marshal(res)
+		fmt.Println("DEBUG", string(b))
+	}
 	rep.Eval(vk.Hash64(m.Size, res.L, res.Mode), res.Kind != "clean-open")
 	rep.Count("cases_"+res.Mode, 1)
 	rep.Count("outcome_"+res.Kind, 1)
